@@ -9,11 +9,11 @@ CHECKS = {
    note="Trusted: refchess (validated against published perft numbers in setup and in lock-step on every transition); small-scope hypothesis for geometries needing more than 4 men outside the root trees."),
  "C02": dict(cat="model_checking", design="§5 C02",
    technique="bounded exhaustive enumeration of (position, legal move) pairs and move chains on the real MakeMove and through a real uci.Driver, lock-step with the reference model; complete en-passant family",
-   text="Every (position, legal move) of the classes, every chain of the trees below the root corpus (API, and depth<=2 through `position fen .. moves ..`/`fen` on a real driver), the complete en-passant family (double push x 0-2 capturers x both kings x one extra man anywhere, both colours) and long reversible lines: engine FEN after the move must equal the reference successor with the ep field present iff a legal ep capture exists.",
+   text="Every (position, legal move) of the classes, every chain of the trees below the root corpus (API, and depth<=2 through `position fen .. moves ..`/`fen` on a real driver), the complete en-passant family (double push x 0-2 capturers x both kings x one extra man anywhere, both colours) long reversible lines, 1600-ply games handed to a driver in one line, sessions of consecutive `position startpos moves` commands on one driver, white space between tokens rotating through blanks/doubled blanks/tabs: engine FEN after the move must equal the reference successor with the ep field present iff a legal ep capture exists.",
    note="Trusted: refchess. Known finding recorded: half-move clock wraps at 128 (int8)."),
  "C03": dict(cat="model_checking", design="§5 C03",
    technique="explicit-state DFS over the real MakeMove/MakeNullMove/Undo with deep-snapshot comparison at every nesting level",
-   text="At every node of the trees (plus half-move-clock variants) and of every class position, every generated pseudo-legal move (legal or not) and the null move is made, nested below legal ones, undone, and a deep snapshot (three placement encodings, side, rights, ep, counters, whole hash history) compared; long lines are made and unwound completely.",
+   text="At every node of the trees (plus half-move-clock variants) and of every class position, every generated pseudo-legal move (legal or not) and the null move is made, nested below legal ones, undone, and a deep snapshot (three placement encodings, side, rights, ep, counters, whole hash history) compared; long lines (170-400 plies, clocks beyond 127) are made and unwound completely with a null move made and undone at every ply.",
    note="Snapshot through the verif hook board.VerifSnapshotInto."),
  "C04": dict(cat="model_checking", design="§5 C04",
    technique="explicit-state DFS with state matching: from-scratch hash and representation consistency after every make; reference-key table as transposition oracle",
@@ -33,7 +33,7 @@ CHECKS = {
    note="Known finding recorded: root FEN with non-capturable ep target."),
  "C11": dict(cat="model_checking", design="§5 C11",
    technique="exhaustive enumeration of positions/canonical texts (round trip) and of enumerated byte strings (all short strings, all single-byte edits of base FENs) through every parser entry point and a real driver",
-   text="Round trip over all class positions with rotating counters and all tree nodes (FromFEN and ParseFEN into a re-used board); every promotion-reachable piece-count vector through InvalidPieceCount and `position fen`; all strings <=5 over a FEN alphabet and every 1-byte substitution/deletion/insertion/truncation/field-count/digit-run variant of 12 base FENs through FromFEN, ParseFEN, epd.Parse and `position fen` (board unchanged when rejected, no panic).",
+   text="Round trip over all class positions with rotating counters and all tree nodes (FromFEN and ParseFEN into a re-used board); every promotion-reachable piece-count vector through InvalidPieceCount and `position fen`; all strings <=5 over a FEN alphabet and over the tuner-record alphabet (incl. CR/LF) and every 1-byte substitution/deletion/insertion/truncation/field-count/digit-run variant of 12 base FENs through FromFEN, ParseFEN, epd.Parse and `position fen` (board unchanged when rejected, no panic).",
    note="Known finding recorded: FEN of positions reached by play with clock > 100 is rejected on reload."),
  "C12": dict(cat="model_checking", design="§5 C12",
    technique="complete enumeration of the finite space (every square x every subset of the full ray set, all leaper squares, all 64x64 pairs) against coordinate-walking geometry",
@@ -45,7 +45,7 @@ CHECKS = {
    note="Beyond the grid: piecewise linearity between enumerated break points (stated, not proved). Hook uci.VerifLimits."),
  "C15": dict(cat="model_checking", design="§5 C15, App. C",
    technique="explicit-state BFS over store/clear/resize sequences on the real table with digest de-duplication, lock-step with a reference model (ttmodel); complete products for re-basing, two-store interaction, overflow, lane matching",
-   text="BFS over operation sequences (10 colliding keys x 8 boundary parameter sets, Clear, Resize+Clear) with all keys probed at three plies after every operation against ttmodel; complete products: every value x store ply x probe ply, all depth pairs x types x generations x moves, bucket overflow patterns, lane matching over all 2^16 keys.",
+   text="BFS over operation sequences (10 colliding keys x 8 boundary parameter sets, Clear, Resize+Clear) with all keys probed at three plies after every operation against ttmodel; the same search to its fix-point on a one-bucket table (five keys + the zero-signature key); complete products: every value x store ply x probe ply, all depth pairs x types x generations x moves, bucket overflow patterns, lane matching over all 2^16 keys.",
    note="Bucket index asked of the implementation (hook); both readings accepted for the exact boundary value; sig-0 keys not judged."),
  "C16": dict(cat="model_checking", design="§5 C16",
    technique="exhaustive product positions x hash moves x ranker states on the real picker; reachability fix-point over all stored values x all 65536 bonuses of the real history updates",
@@ -65,7 +65,7 @@ CHECKS = {
    note="Built against /repo/tools/tuner via replace directive."),
  "C20": dict(cat="model_checking", design="§5 C20",
    technique="exhaustive enumeration over n, seeds, layouts, sub-ranges and read-buffer alignments (overlay builds with small buffers)",
-   text="feistel bijective for every width x 24 seeds; shuffleIndex a permutation for EVERY n up to the bound; Batches/Chunks partitions for every n/length; files of every line count in 6 layouts read as whole epochs and all sub-ranges; a 40 MiB file with the real buffer; the same family with the buffer overlaid to 64/257/4096 bytes.",
+   text="feistel bijective for every width x 24 seeds; shuffleIndex a permutation for EVERY n up to the bound; Batches/Chunks partitions for every n/length; files of every line count in 7 layouts read as whole epochs and all sub-ranges, every window rewound and read twice, two windows interleaved; a 40 MiB file with the real buffer; the same family with the buffer overlaid to 64/257/4096 bytes.",
    note="Epochs beyond the enumerated seeds rest on the epoch only seeding round keys."),
  "C06": dict(cat="fault_enumeration", design="§5 C06",
    technique="exhaustive abort-point enumeration: hard node budget k for every k of a search, soft limit at every iteration boundary, persistent-instance game sequences, UCI numeric-argument sweep; reference-model legality oracle and deep board snapshots",
@@ -77,7 +77,7 @@ CHECKS = {
    note="Table states are reached by deterministic games, not exhausted."),
  "C08": dict(cat="model_checking", design="§5 C08",
    technique="twin-instance differential exploration over game histories x every iteration boundary (soft limit vs hard budget), digest comparison of the state left behind; free-running concurrent replay plus race-detector pass (complementary)",
-   text="Along engine-vs-engine games (tables carried over) every search runs on two identically driven instances (results, reported lines, table/history/generation digests equal) and is replayed on a third with a hard budget equal to the nodes used (same result, same state, budget respected); every iteration boundary of depth-6 searches over the root corpus soft vs hard plus a follow-up search; all games replayed concurrently must reproduce sequential transcripts; race detector pass over 12 concurrent instances.",
+   text="Along engine-vs-engine games (tables carried over) every search runs on two identically driven instances (results, reported lines, table/history/generation digests equal) and is replayed on a third with a hard budget equal to the nodes used (same result, same state, budget respected); every iteration boundary of depth-6 searches over the root corpus soft vs hard plus a follow-up search; all games replayed concurrently must reproduce sequential transcripts; games under hard budgets that cut searches mid-iteration or before any move is found; Clear() after games, after mid-iteration cuts and after 255/256/257/512/513 searches must leave an instance that answers like a fresh one; an instance without an output sink must give the same results; race detector pass over up to 24 concurrent instances.",
    note="Race-detector silence proves nothing (complementary pass); digests through verif hooks."),
  "C13": dict(cat="model_checking", design="§5 C13, §4.3, App. A",
    technique="stateless DFS over thread interleavings of the real uci package under a hand-written cooperative scheduler (operations redirected by an AST rewrite applied through go build -overlay), iterative deviation bounding with global-state-key pruning; mock search validated against real-search traces; solo fault plans; complementary race-detector pass",
